@@ -51,10 +51,10 @@ def r1_outcomes(rep, facts):
             pass
 
 
-def r2_none_policy(rep, facts):
+def r2_none_policy(rep, facts, prefixes=('toml_edit::ser', 'toml::value', 'toml::ser')):
     R = rep.rule('C07/R2', 'an error from a nested value is never swallowed, except UnsupportedNone raised by the immediate value itself '
                  '(flag set only in serialize_none): swallow <=> is UnsupportedNone && value_was_none', floor=3)
-    sites = sm.swallow_sites(facts)
+    sites = sm.swallow_sites(facts, prefixes)
     for d, kind, ok, detail, node in sites:
         b = facts.body(d)
         rep.check(R, f'{d}|swallow', ok, detail, f'`{d}` lets a serialization error pass without returning it ({detail}): a field whose value contains a nested None '
@@ -69,7 +69,7 @@ def r2_none_policy(rep, facts):
     # serialize_element of sequences propagates every error
     for d, b in facts.bodies.items():
         seg = last_seg(strip_generics(d))
-        if seg in ('serialize_element',) and ('toml_edit::ser' in d or 'toml::value' in d):
+        if seg in ('serialize_element',) and any(p_ in d for p_ in prefixes):
             tries = [n for n in walk(b['body']) if n.get('k') == 'match' and 'TryDesugar' in (n.get('src') or '')]
             delegates = any(last_seg(c) in ('serialize_element',) for n in calls_in(b['body']) for c in callee_all(n))
             rep.check(R, f'{d}|propagates', bool(tries) or delegates, 'value.serialize(..)? / delegation', f'`{d}` does not propagate element errors', facts.loc(b))
@@ -360,6 +360,17 @@ def rules(rep, facts):
     r12_variant_tag(rep, facts)
     from .rules_c13 import r2_tunnel
     r2_tunnel(rep, facts, rid='C07/R13')
+    if 'toml' in facts.crates and 'parse' in feats:
+        # a variant's payload is written inline or — once the formatting visitors promoted it — under [table] / [[table]] headers: the enum readers of
+        # both crates have to accept every container kind a payload can come back in
+        from .rules_c13 import r3_enum_access
+        r3_enum_access(rep, facts)
+        rep.relabel('C13/R3', 'C07/R14', 'what the serializers write for enum variants is read back in every spelling: ')
+    if 'toml' in facts.crates:
+        from .rules_c13 import r1_wrappers, r10_variant_collectors
+        r1_wrappers(rep, facts)
+        rep.relabel('C13/R1', 'C07/R15', 'what was written is read back through the same specialised methods (a wrapper that leaves one to deserialize_any refuses what the serializer produced): ')
+        r10_variant_collectors(rep, facts, rid='C07/R16')
     if 'toml' in facts.crates:
         from .rules_c13 import r7_value_passes
         r7_value_passes(rep, facts, rid='C07/R9')
